@@ -227,7 +227,7 @@ func checkC12(c *Ctx) {
 	c.checkTokenArms()
 
 	// ---- C12-RING: the lexer's look-back ring (it decides whether +/- continues a float exponent)
-	c.checkLookbackRing()
+	c.checkLookbackRing("C12-RING")
 
 	// ---- C12-FLUSH
 	if lexerT := c.named("Lexer"); lexerT != nil {
@@ -332,16 +332,16 @@ func (c *Ctx) checkTokenArms() {
 // checkLookbackRing: Lexer.priorRune is a ring written at priori, which then
 // advances modulo the ring length. A reader that looks k runes back must index
 // (priori - k) mod N: either priori-k, or priori-k+N on the negative side.
-func (c *Ctx) checkLookbackRing() {
+func (c *Ctx) checkLookbackRing(rule string) {
 	ring := c.field("Lexer", "priorRune")
 	cur := c.field("Lexer", "priori")
 	if ring == nil || cur == nil {
-		c.undecided("C12-RING", "Lexer", "priorRune / priori", token.NoPos, "look-back ring fields not found")
+		c.undecided(rule, "Lexer", "priorRune / priori", token.NoPos, "look-back ring fields not found")
 		return
 	}
 	arr, ok := ring.Type().Underlying().(*types.Array)
 	if !ok {
-		c.undecided("C12-RING", "Lexer", "priorRune", ring.Pos(), "the look-back buffer is no longer a fixed-size array")
+		c.undecided(rule, "Lexer", "priorRune", ring.Pos(), "the look-back buffer is no longer a fixed-size array")
 		return
 	}
 	N := arr.Len()
@@ -366,18 +366,20 @@ func (c *Ctx) checkLookbackRing() {
 			n++
 			if isWrite {
 				_, isCur := loadOfField(ia.Index, cur)
-				c.check(isCur, "C12-RING", fnName(f), "writes the slot at the cursor", ia.Pos(), "the rune is stored at priori", "the look-back ring is written at an index other than the cursor")
+				c.check(isCur, rule, fnName(f), "writes the slot at the cursor", ia.Pos(), "the rune is stored at priori", "the look-back ring is written at an index other than the cursor")
 				return
 			}
 			// reader: every value the index can take is priori-k or priori-k+N for one k in 1..N-1
 			ks := map[int64]bool{}
 			okIdx := true
+			sawPlain, sawWrapped, sawMod := false, false, false
 			for _, leaf := range phiLeaves(ia.Index) {
 				if rem, ok := leaf.(*ssa.BinOp); ok && rem.Op == token.REM {
 					if m, isK := constIntOf(rem.Y); isK && m == N {
 						base, off := linearOf(rem.X)
 						if _, isCur := loadOfField(base, cur); isCur && off > 0 && off < N {
 							ks[N-off] = true
+							sawMod = true
 							continue
 						}
 					}
@@ -399,18 +401,21 @@ func (c *Ctx) checkLookbackRing() {
 				switch {
 				case off < 0 && -off < N:
 					ks[-off] = true
+					sawPlain = true
 				case off > 0 && off < N:
 					ks[N-off] = true
+					sawWrapped = true
 				default:
 					okIdx = false
 				}
 			}
-			c.check(okIdx && len(ks) == 1, "C12-RING", fnName(f), "reads a fixed distance behind the cursor", ia.Pos(),
+			covers := sawMod || (sawPlain && sawWrapped)
+			c.check(okIdx && len(ks) == 1 && covers, rule, fnName(f), "reads a fixed distance behind the cursor", ia.Pos(),
 				fmt.Sprintf("the index is (priori - k) modulo %d for a single k", N),
-				fmt.Sprintf("the look-back index is not (priori - k) modulo %d for a single k on every path: near the wrap-around the lexer looks at the wrong rune, so whether a + or - continues a float exponent depends on the position of the literal in the text", N))
+				fmt.Sprintf("the look-back index is not (priori - k) modulo %d for a single k on every path (both the plain and the wrapped case must be read from the ring): near the wrap-around the lexer looks at the wrong rune, so whether a + or - continues a float exponent depends on the position of the literal in the text", N))
 		})
 	}
 	if n < 2 {
-		c.undecided("C12-RING", "Lexer", "ring accesses", token.NoPos, fmt.Sprintf("only %d accesses of the look-back ring found", n))
+		c.undecided(rule, "Lexer", "ring accesses", token.NoPos, fmt.Sprintf("only %d accesses of the look-back ring found", n))
 	}
 }
